@@ -2035,9 +2035,9 @@ def make_config(rseed: int, prop: str, tier: str, faults: bool) -> dict[str, Any
     if prop == "C01" and r.random() < 0.5:
         # bias to separator-bearing strings
         strpool = r.sample([s for s in U.STR_POOL if set(":=()[]@<>") & set(s)] + ["1", "2", "3"], min(5, nstr + 1))
-    if (prop == "C01" and r.random() < 0.3) or (prop == "C03" and r.random() < 0.12):
+    if (prop == "C01" and r.random() < 0.3) or (prop == "C03" and r.random() < 0.2):
         # collision kit: strings that move a separator run from one field into its neighbour
-        e = r.choice(["", "", "\\", "\\\\", ")", "\\)"])  # optionally with the digest's own escape characters
+        e = r.choice(["", "", "\\", "\\\\", ")", "\\)"] if prop == "C01" else ["", "\\", "\\", "\\\\", ")", "\\)"])  # optionally with the digest's own escape characters
         infix = "):b=<class 'str'>("
         strpool = ["1" + infix + "2" + e, "3", "1" + e, "2" + infix + "3"] + r.sample(U.STR_POOL, 1)
     leafs = ["LeafA", "LeafB", "LeafA2", "Meta"]
